@@ -224,6 +224,10 @@ def gen_case(tp, tier):
             if ev['instrument'] == 'vari' or tp.draw(12) == 0:
                 # (on a definition without variants the key changes nothing)
                 ev['variant'] = tp.choice(['low', 'wide'])
+            if tp.draw(8) == 0:
+                # played on a second server, where this client is number 2
+                # of 4: its own default group, its own node id range
+                ev['_server'] = 'other'
             evs.append(ev)
         case = {'kind': kind, 'events': evs, 'knobs': kn,
                 'clock': tp.choice(['sys', 'tempo'])}
@@ -463,8 +467,10 @@ def expected_msgs(ev, t, latency):
     out = [(t + latency, 's_new',
             {'instr': instr, 'action': ACTION_NUM[ev.get('add_action',
                                                          'addToHead')],
-             'group': ev.get('group', 1), 'params': params,
-             'has_gate': has_gate})]
+             'group': ev.get('group', 1 if ev.get('_server') != 'other'
+                             else (OTHER_CLIENT << 26) + 1),
+             'client': OTHER_CLIENT if ev.get('_server') == 'other' else 0,
+             'params': params, 'has_gate': has_gate})]
     if has_gate:
         out.append((t + latency + r['sustain'], 'gate_off', None))
     return out, r
@@ -613,10 +619,30 @@ def build_pattern(p):
     raise ValueError(p)
 
 
+OTHER_ADDR = ('127.0.0.1', 57150)
+OTHER_CLIENT = 2
+_OTHER = []
+
+
+def other_server():
+    import sc3.synth.server as ssrv
+    import sc3.base.netaddr as snad
+    if not _OTHER or _OTHER[0][0] is not ssrv.Server.default:
+        o = ssrv.ServerOptions()
+        o.max_logins = 4
+        s2 = ssrv.Server('other', snad.NetAddr(*OTHER_ADDR), o)
+        s2._status_watcher._handle_login_done(OTHER_CLIENT, 4)
+        s2.latency = ssrv.Server.default.latency
+        _OTHER[:] = [(ssrv.Server.default, s2)]
+    return _OTHER[0][1]
+
+
 def make_event(ev):
     from sc3.seq.event import event, Rest
     import sc3.seq.scale as scl
     d = {}
+    if ev.get('_server') == 'other':
+        d['server'] = other_server()
     for k, v in ev.items():
         if k.startswith('_'):
             continue                  # model-only annotation
@@ -742,6 +768,7 @@ def run_rt(case, tape, emit):
     k = w.kernel
     main = w.main
     fake = FS.FakeServer(w.net)
+    fake2 = FS.FakeServer(w.net, addr=OTHER_ADDR)
     lookups = []
     done = [False]
 
@@ -751,12 +778,14 @@ def run_rt(case, tape, emit):
         done[0] = True
         k.freeze()
         msgs = []
-        for now, tt, m in fake.messages:
+        for now, tt, m in sorted(fake.messages + fake2.messages,
+                                 key=lambda x: x[0]):
             if m.addr == '/d_recv':
                 continue
             msgs.append([tt, m.aslist(), now])
         return {'outcome': outcome, 'msgs': msgs,
-                'malformed': [x[1] for x in fake.malformed[:3]],
+                'malformed': [x[1] for x in (fake.malformed
+                                             + fake2.malformed)[:3]],
                 'lookups': lookups,
                 'offset': sclk.SystemClock._elapsed_osc_offset,
                 'latency': ssrv.Server.default.latency,
@@ -878,7 +907,7 @@ def check_bundles(world, got, case, latency, viol, stats, rel, lo=1000,
         gt, gm = pool.pop(hit)
         nid = gm[2]
         if nid in seen_ids or not (lo <= (nid & 0x03FFFFFF)) \
-                or (nid >> 26) != 0:
+                or (nid >> 26) != pay.get('client', 0):
             viol.add('C14-1', f'{world}-node-id',
                      f'{world}: node id {nid} reused or outside the '
                      f'client\'s range')
